@@ -25,5 +25,11 @@ for p in "$@"; do
   orc=$(grep -m1 'violated oracle\|memory fault' <<<"$out" | cut -c1-240)
   steps=$(grep -m1 -o 'minimal history ([0-9]* steps)' <<<"$out")
   echo "$p rc=$rc $((t1-t0))s ${orc:-} ${steps:-}"
+  if [ $rc -eq 1 ] && [ -n "${HARVEST:-}" ]; then
+    f=$(ls -t "$WT/verif/failures/$p-"*.json 2>/dev/null | grep -v -- "-crash-\|-miri-\|-fuzz-\|-asan-" | head -1)
+    if [ -n "$f" ] && ! grep -q '^  "kind"' "$f" && grep -q '"case"' "$f"; then
+      mkdir -p "/verif/corpus/regress/$p"; cp "$f" "/verif/corpus/regress/$p/$HARVEST.json"
+    fi
+  fi
 done
 git -C "$WT/repo" checkout -q -- .
